@@ -13,6 +13,8 @@ checks={
  "C06":("exploration","simhost","at the moment a ReadIndex completes on any replica its local applied index must be at least the highest commit index any replica had when the request was issued (ghost, monotone), under duplication/reordering/partitions/transfers/membership changes; plus the C01 history check", SIMHOST),
  "C07":("exploration","simhost","membership observed per ConfigChangeId must be identical on all replicas and obey the stated rules; invalid requests must not complete; stale ordered ids must be rejected", SIMHOST),
  "C08":("exploration","simhost","frequent snapshots with small compaction overhead, lagging followers caught up through real chunk transfer, restarts from own snapshots, all three SM kinds, compression on/off: replicas that applied the same index must hold the same state, restart after any crash must succeed (no gap after compaction)", SIMHOST),
+ "C09":("exploration","l0","real Tan (regular, multiplexed) and sharded Pebble (plain, batched) over SimFS driven with tape-chosen save/overwrite/compaction/removal/import/reopen sequences over several replicas sharing a store, every query compared with a reference store written from the ILogDB contract", L0),
+ "C10":("fault_enumeration","l0","same harness with a crash (all unsynced data lost, optional torn prefix) or an I/O error at a tape-chosen or enumerated file-system operation / KV call of a save, compaction, rollover or import: acknowledged saves must be readable after reopen, the interrupted save all-or-nothing per replica, a failed write never reported as success", L0),
  "C11":("exploration","simhost","instrumented state machines of the three kinds park inside their methods so that overlapping calls are observed; index order, no call after Close, on-disk Open index", SIMHOST),
  "C12":("exploration","simhost","every accepted request is watched for exactly one terminal result, truthful Completed value, expiry in the fair phase; component model of the pending tables", SIMHOST+"; "+L0),
  "C13":("fault_enumeration","l0","CLAIMED IN PART: frame clause decided by enumerating bit flips/truncations of real frames; codec round trip and size bounds only on generated values", L0),
